@@ -44,6 +44,10 @@ def models():
     return {
         "StandardNormal[2]": (lambda: D.StandardNormal([2]), (2,), "optional", False),
         "StandardNormal[2,2]": (lambda: D.StandardNormal([2, 2]), (2, 2), "optional", False),
+        # a transform that changes the event shape (noise [4,1,1] <-> data [1,2,2]), sampled with a context
+        "Flow(Squeeze|StandardNormal[4,1,1])": (lambda: FL.base.Flow(TR.SqueezeTransform(2), D.StandardNormal([4, 1, 1])), (1, 2, 2), "optional", False),
+        # integer class labels as the context, embedded by nn.Embedding
+        "Flow(affine|CondNormal)+Embedding(labels)": (lambda: FL.base.Flow(TR.PointwiseAffineTransform(shift=0.5, scale=2.0), D.ConditionalDiagonalNormal([2]), embedding_net=torch.nn.Embedding(5, 4)), (2,), "required", False),
         "StandardNormal[]": (lambda: D.StandardNormal([]), (), "optional", False),
         "StandardNormal[1]": (lambda: D.StandardNormal([1]), (1,), "optional", False),
         "Flow(affine|StandardNormal[])": (lambda: FL.base.Flow(TR.PointwiseAffineTransform(shift=0.5, scale=2.0), D.StandardNormal([])), (), "optional", False),
@@ -75,6 +79,8 @@ def make_context(torch, name, rows, event, marker):
         d = event[0]
         means = (torch.arange(rows, dtype=torch.float32).view(-1, 1) * 1000.0).expand(rows, d)
         return torch.cat([means, torch.full((rows, d), -10.0)], dim=1)
+    if "labels" in name:
+        return torch.arange(rows, dtype=torch.long) % 5
     return torch.randn(rows, 4)
 
 
